@@ -52,9 +52,6 @@
 #include "galois/graphs/OCGraph.h"
 #include "galois/graphs/OfflineGraph.h"
 
-#include <sched.h>
-#include <sys/syscall.h>
-
 #include <memory>
 #include <set>
 #include <sstream>
@@ -67,9 +64,10 @@ namespace gg = galois::graphs;
 
 // ---------------------------------------------------------------------------
 // runtime, created lazily in the worker process (threads do not survive fork).
-// The pool sizes itself from the affinity mask; 16 workers x 16 pool threads
-// would be pointless, so the mask is narrowed to 2 CPUs while the pool is
-// created and widened again for every thread afterwards.
+// The pool has one (sleeping) thread per CPU.  The affinity mask is NOT
+// narrowed to get a smaller pool: on a box where other jobs are bound to
+// particular CPUs (mpirun binds its ranks to cores 0,1,..) a worker confined to
+// those CPUs was observed to sit in the ThreadPool constructor for minutes.
 // ---------------------------------------------------------------------------
 static void rt() {
   static galois::SharedMemSys* G = nullptr;
@@ -77,32 +75,7 @@ static void rt() {
     return;
   setenv("GALOIS_DO_NOT_BIND_THREADS", "1", 1);
   setenv("GALOIS_DEBUG_SKIP", "1", 1); // gDebug() chatter off, asserts stay on
-  cpu_set_t all, few;
-  CPU_ZERO(&all);
-  CPU_ZERO(&few);
-  sched_getaffinity(0, sizeof all, &all);
-  // two of the allowed CPUs, chosen by pid (not always the first two: other
-  // jobs on the box may be pinned there)
-  std::vector<int> allowed;
-  for (int c = 0; c < CPU_SETSIZE; ++c)
-    if (CPU_ISSET(c, &all))
-      allowed.push_back(c);
-  if (allowed.empty())
-    allowed.push_back(0);
-  size_t start = (size_t)getpid() * 7919u;
-  for (size_t k = 0; k < 2 && k < allowed.size(); ++k)
-    CPU_SET(allowed[(start + k) % allowed.size()], &few);
-  sched_setaffinity(0, sizeof few, &few);
-  G        = new galois::SharedMemSys();
-  auto& tp = galois::substrate::getThreadPool();
-  std::vector<pid_t> ostid(tp.getMaxThreads(), 0);
-  tp.run(tp.getMaxThreads(), [&ostid]() {
-    ostid[galois::substrate::ThreadPool::getTID()] = (pid_t)syscall(SYS_gettid);
-  });
-  for (pid_t t : ostid)
-    if (t)
-      sched_setaffinity(t, sizeof all, &all);
-  sched_setaffinity(0, sizeof all, &all);
+  G = new galois::SharedMemSys();
 }
 
 // ---------------------------------------------------------------------------
